@@ -16,6 +16,10 @@ inductive Res (α : Type) where
   | diverge
   deriving Inhabited
 
+def Res.isPanic {α} : Res α → Bool
+  | .panic _ => true
+  | _ => false
+
 def minInt64 : Int := -9223372036854775808
 
 /-- Go's `IntType(f)` on amd64 (CVTTSD2SI): out-of-range and NaN give MinInt64 -/
@@ -38,9 +42,11 @@ def typeErr (op : BinOp) (a b : Val) : String :=
 /-- ArrayRepeatTimesEx -/
 def arrayRepeat (h : Heap) (a : Nat) (times : Int) : Heap × Res Val :=
   let l := h.arrOf a
+  if times < 0 then (h, .err "数组重复次数不能为负数")
+  else if l.length > 0 && times > 512 then (h, .err "不能一次性创建过长的数组")
+  else
   let length := wrap64 ((l.length : Int) * times)
   if length > 512 then (h, .err "不能一次性创建过长的数组")
-  else if length < 0 then (h, .panic "makeslice: len out of range@ArrayRepeatTimesEx")
   else
     let n := length.toNat
     let out := (List.range n).map (fun i => l.getD (i % l.length) .null)
